@@ -4,6 +4,7 @@
 package main
 
 import (
+	"syscall"
 	"bytes"
 	"context"
 	"encoding/json"
@@ -115,6 +116,7 @@ type outcome struct {
 	res    *cf.Result
 	crash  string // stderr of a dead worker
 	infra  string
+	spin   string // the library function both attempts were found spinning in at the real-time limit
 	wallMs int64
 }
 
@@ -122,6 +124,7 @@ type outcome struct {
 func execCase(bin string, c *cf.Case, verbose bool) *outcome {
 	data, _ := json.Marshal(c)
 	o := &outcome{c: c}
+	var spin0 []string
 	for attempt := 0; attempt < 2; attempt++ {
 		limit := 60 * time.Second
 		if attempt > 0 {
@@ -129,6 +132,10 @@ func execCase(bin string, c *cf.Case, verbose bool) *outcome {
 		}
 		ctx, cancel := context.WithTimeout(context.Background(), limit)
 		cmd := exec.CommandContext(ctx, bin)
+		// at the limit the worker is asked for a goroutine dump (SIGQUIT) before it is killed: a worker that spins
+		// inside the library without ever blocking (fake time cannot advance) is told apart from a slow machine
+		cmd.Cancel = func() error { return cmd.Process.Signal(syscall.SIGQUIT) }
+		cmd.WaitDelay = 10 * time.Second
 		cmd.Stdin = bytes.NewReader(data)
 		var stdout, stderr bytes.Buffer
 		cmd.Stdout, cmd.Stderr = &stdout, &stderr
@@ -155,6 +162,21 @@ func execCase(bin string, c *cf.Case, verbose bool) *outcome {
 		}
 		if timedOut {
 			o.infra = "worker exceeded its wall clock limit (60 s, then 180 s)"
+			fns := spinningIn(stderr.String())
+			if attempt == 0 {
+				spin0 = fns
+			} else {
+				// both attempts ended with the running goroutine inside the same library function: a busy loop
+				// that never blocks (the simulator's clock cannot advance past it), not a slow machine
+				for _, fn := range fns {
+					for _, g := range spin0 {
+						if fn == g {
+							o.infra, o.spin, o.crash = "", fn, ""
+							return o
+						}
+					}
+				}
+			}
 			continue // retry once
 		}
 		se := stderr.String()
@@ -168,11 +190,45 @@ func execCase(bin string, c *cf.Case, verbose bool) *outcome {
 	return o
 }
 
+// spinningIn returns the github.com/Shopify/sarama functions on the stack of the goroutine that was running when the
+// worker was sent SIGQUIT, innermost first (empty if that goroutine was not inside the library).
+func spinningIn(dump string) []string {
+	i := strings.Index(dump, "[running")
+	if i < 0 {
+		return nil
+	}
+	rest := dump[i:]
+	if j := strings.Index(rest, "\n\ngoroutine "); j > 0 {
+		rest = rest[:j]
+	}
+	var out []string
+	for _, l := range strings.Split(rest, "\n") {
+		if strings.HasPrefix(l, "main.") || strings.HasPrefix(l, "simverif/") {
+			// a harness frame: whatever lies further out called into the harness, and the loop may be the harness's
+			break
+		}
+		if !strings.HasPrefix(l, "github.com/Shopify/sarama.") || strings.HasPrefix(l, "github.com/Shopify/sarama.Verif") {
+			continue
+		}
+		// "github.com/Shopify/sarama.(*T).method(0x..., ...)" or "github.com/Shopify/sarama.fn(...)": cut the arguments
+		name := l
+		if k := strings.LastIndex(l, "("); k > 0 {
+			name = l[:k]
+		}
+		out = append(out, name)
+	}
+	return out
+}
+
 // violationsFor filters a result's violations to the rules of one property.
 func violationsFor(prop string, o *outcome) []cf.Violation {
 	var out []cf.Violation
 	if o.crash != "" {
 		out = append(out, cf.Violation{Rule: prop + ".panic", Detail: "worker process died: " + firstLines(o.crash, 30)})
+		return out
+	}
+	if o.spin != "" {
+		out = append(out, cf.Violation{Rule: prop + ".spin", Detail: "the worker never blocked again: at the real-time limit (60 s, and again after 180 s on a second attempt) its running goroutine was inside " + o.spin + " - a busy loop in the library (fake time cannot advance past it)"})
 		return out
 	}
 	if o.res == nil {
